@@ -9,9 +9,11 @@ namespace Pedal.Timeout
 
 
 /-- the protocol as repaired -/
-def fixed : Cfg := { claim := true, handlerPops := true, handlerBumps := true }
+def fixed : Cfg := { claim := true, handlerPops := true, handlerBumps := true, termTolerant := true }
 /-- the pinned tree -/
-def pinned : Cfg := { claim := false, handlerPops := false, handlerBumps := false }
+def pinned : Cfg := { claim := false, handlerPops := false, handlerBumps := false, termTolerant := false }
+/-- the claim protocol without the tolerant `terminate()` -/
+def intolerant : Cfg := { fixed with termTolerant := false }
 
 def GPc.rank : GPc → Nat
   | .join => 0 | .check => 1 | .term => 2 | .hStop => 3 | .hPop => 4 | .hCap => 5 | .hBump => 6
@@ -98,6 +100,7 @@ structure Inv (s : St) : Prop where
   hdepth : s.depthAtReturn = (if s.gpc.rank ≥ 9 then some (0, 0) else none)
   hbefore : s.excBeforeNext = (if s.gpc.rank ≥ 10 then some (e1Exc s.claim s.tExit) else none)
   hesc : s.e2Escaped = false
+  hesc1 : s.e1Escaped = false
 
 theorem inv_init : Inv init := by
   constructor <;> simp [init, legal, expStacks, expFb, expExc, expNext, e1Appended, GPc.rank, TPc.rank]
